@@ -105,16 +105,24 @@ func c18(c *an.Ctx) {
 						var asserted []string
 						var conv []string
 						errOnFail := false
+						valueName := "value"
+						ast.Inspect(kv.Value, func(nd ast.Node) bool {
+							if fl, ok := nd.(*ast.FuncLit); ok && fl.Type.Params != nil && len(fl.Type.Params.List) > 0 && len(fl.Type.Params.List[0].Names) > 0 {
+								valueName = fl.Type.Params.List[0].Names[0].Name
+								return false
+							}
+							return true
+						})
 						ast.Inspect(kv.Value, func(nd ast.Node) bool {
 							switch x := nd.(type) {
 							case *ast.TypeAssertExpr:
 								if x.Type != nil {
-									if id, ok := x.X.(*ast.Ident); ok && id.Name == "value" {
+									if id, ok := x.X.(*ast.Ident); ok && id.Name == valueName {
 										asserted = append(asserted, exprString(x.Type))
 									}
 								}
 							case *ast.IfStmt:
-								if un, ok := x.Cond.(*ast.UnaryExpr); ok && un.Op == token.NOT && exprString(un.X) == "ok" {
+								if un, ok := x.Cond.(*ast.UnaryExpr); ok && un.Op == token.NOT {
 									if len(x.Body.List) > 0 {
 										if rs, ok := x.Body.List[len(x.Body.List)-1].(*ast.ReturnStmt); ok && len(rs.Results) == 1 && exprString(rs.Results[0]) != "nil" {
 											errOnFail = true
